@@ -368,3 +368,54 @@ Theorem C17_wire_same_signs : forall a b,
           \/ (snd (run_bus (shut_down a) b) = ProtoErr /\ o = BusFailed))).
 Proof. exact WireP.C17_wire_same_signs. Qed.
 Print Assumptions C17_wire_same_signs.
+
+(* ---------------------------------------------------------------------------------------- *)
+(* [wire_step] (model/Serial.v) spells the controller side out inline.  It IS: the
+   SerialSignBus call [serial_process] (C16/C18) around one bridge step: the bytes
+   serial_process writes are exactly the bytes the bridge is fed, and serial_process reading
+   from a pipe that holds what the bridge wrote back gives exactly wire_step's answer and
+   leftover inbox.  Unconditional: for every wire state (any inbox) and every message. *)
+
+Theorem C17_def_wire_step_via_serial : forall w m,
+  wire_step_via_serial w m
+  = match odk_process {| pt_in := pipe_reader (encode_nl (frame_of_msg m));
+                         pt_out := pipe_writer |} (wr_bus w) with
+    | None => None
+    | Some (res, op, b', _) =>
+        match res with
+        | Err OPanic => Some (w, WPanic)
+        | _ =>
+            match serial_process m {| pt_in := pipe_reader (wr_inbox w ++ w_out (pt_out op));
+                                      pt_out := pipe_writer |} with
+            | None => None
+            | Some (r, p', _) =>
+                Some ({| wr_bus := b'; wr_inbox := r_content (pt_in p') |},
+                      match r with Ok reply => WRep reply | Err _ => WErr end)
+            end
+        end
+    end.
+Proof. exact wire_step_via_serial_eqn. Qed.
+Print Assumptions C17_def_wire_step_via_serial.
+
+Example C17_ex_via_serial :
+  wire_step_via_serial {| wr_bus := sign3; wr_inbox := [] |} (Hello 3)
+  = Some ({| wr_bus := sign3; wr_inbox := [] |}, WRep (Some (ReportState 3 Unconfigured)))
+  /\ wire_step_via_serial {| wr_bus := sign3; wr_inbox := [58; 10; 7] |} (QueryState 4)
+     = Some ({| wr_bus := sign3; wr_inbox := [7] |}, WErr)
+  /\ wire_step {| wr_bus := sign3; wr_inbox := [58; 10; 7] |} (QueryState 4)
+     = Some ({| wr_bus := sign3; wr_inbox := [7] |}, WErr).
+Proof. vm_compute. repeat split; reflexivity. Qed.
+
+Theorem C17_wire_is_serial_plus_bridge :
+  (forall w m, wire_step w m = wire_step_via_serial w m)
+  /\ (forall m p res p' evs,
+        w_sched (pt_out p) = [] ->
+        serial_process m p = Some (res, p', evs) ->
+        w_out (pt_out p') = w_out (pt_out p) ++ encode_nl (frame_of_msg m)
+        /\ w_sched (pt_out p') = []
+        /\ exists evs', evs = EvWrite (encode_nl (frame_of_msg m)) :: evs')
+  /\ (forall m rd res p' evs,
+        serial_process m {| pt_in := rd; pt_out := pipe_writer |} = Some (res, p', evs) ->
+        w_out (pt_out p') = encode_nl (frame_of_msg m)).
+Proof. exact WireP.C17_wire_is_serial_plus_bridge. Qed.
+Print Assumptions C17_wire_is_serial_plus_bridge.
